@@ -731,6 +731,53 @@ def ratfun_add(a, b):
     return (p_add(p_mul(a[0], b[1]), p_mul(b[0], a[1])), p_mul(a[1], b[1]))
 
 
+_HOST_TIME = {"astimezone", "localtime", "mktime", "fromtimestamp", "now", "today", "utcnow", "timestamp", "tzset", "gmtime", "ctime", "strptime"}
+_HOST_TIME_SELFTEST = """
+def toJulianDate(date_time):
+    date_time = date_time.astimezone(timezone.utc)
+    return getJulianDate(date_time.year, date_time.month, date_time.day, date_time.hour, date_time.minute, date_time.second)
+"""
+
+
+def rule_r10(chk, p, t):
+    r = chk.rule(
+        "C05.R10",
+        "calendar and Julian-date conversions are functions of their arguments only",
+        10,
+        "every datetime in the scenario is a naive UTC datetime; a conversion that consults the host (astimezone on a "
+        "naive datetime reads it as host-local time, datetime.timestamp / fromtimestamp / mktime / localtime / now / "
+        "today likewise) makes calendar <-> Julian date disagree by the host's UTC offset wherever the process does not "
+        "run in UTC, and non-monotonic across a daylight-saving change.  No function of resonaate.physics.time, of the "
+        "scenario clock or of the agents' epoch properties calls one of these",
+        "what the standard library does with an aware datetime",
+    )
+    mods = [m for m in p.modules.values() if m.name.startswith("resonaate.physics.time") or m.name in ("resonaate.scenario.clock",)]
+    n = 0
+    for mod in sorted(mods, key=lambda m: m.name):
+        for fi in mod.functions.values():
+            fns = [fi]
+            for f in fns:
+                n += 1
+                hits = [c for c in walk_no_nested(f.node) if isinstance(c, ast.Call) and isinstance(c.func, ast.Attribute) and c.func.attr in _HOST_TIME]
+                if hits:
+                    r.violation(f.qualname, f"host-time:{hits[0].func.attr}", f"{f.name} calls `{unparse(hits[0])[:70]}`: the result depends on the host's time zone / clock, not only on the arguments (naive datetimes are UTC by convention here)", f.loc(hits[0]))
+                else:
+                    r.ok(f.qualname, "no host-dependent time call", f.loc())
+        for ci in mod.classes.values():
+            for f in list(ci.methods.values()) + list(ci.setters.values()):
+                n += 1
+                hits = [c for c in walk_no_nested(f.node) if isinstance(c, ast.Call) and isinstance(c.func, ast.Attribute) and c.func.attr in _HOST_TIME]
+                if hits:
+                    r.violation(f.qualname, f"host-time:{hits[0].func.attr}", f"{f.name} calls `{unparse(hits[0])[:70]}`: the result depends on the host's time zone / clock, not only on the arguments", f.loc(hits[0]))
+                else:
+                    r.ok(f.qualname, "no host-dependent time call", f.loc())
+    # the rule's expected count on the tree is zero: a positive example must match on every run
+    tree = ast.parse(_HOST_TIME_SELFTEST)
+    pos = [c for c in ast.walk(tree) if isinstance(c, ast.Call) and isinstance(c.func, ast.Attribute) and c.func.attr in _HOST_TIME]
+    if len(pos) != 1:
+        r.error("selftest", "the embedded positive example is not recognised")
+
+
 def run(chk, p, t):
     chk.explanation = (
         "Static decision of structural necessary conditions of C05: (R1) the float seconds of a Julian date are "
@@ -742,8 +789,8 @@ def run(chk, p, t):
         "algorithm over 1901-2099 (float arithmetic)."
     )
     chk.assumptions += ["round/around/rint round to nearest; int/floor/trunc truncate; timedelta normalises (carries) seconds"]
-    for fn in (rule_r1, rule_r2, rule_r3, rule_r4, rule_r5, rule_r6, rule_r7, rule_r8, rule_r9):
-        rid = "C05.R" + fn.__name__[-1]
+    for fn in (rule_r1, rule_r2, rule_r3, rule_r4, rule_r5, rule_r6, rule_r7, rule_r8, rule_r9, rule_r10):
+        rid = "C05.R" + fn.__name__.split("_r")[-1]
         if not chk.wants(rid):
             continue
         try:
